@@ -30,7 +30,7 @@ FreeMeta(S) == {x \in S : x[1] \notin SettingNames}
 InstEq(o, e) ==
   /\ o.rest = e.rest
   /\ (~e.rest => /\ SameIvC(o.deg, e.deg) /\ o.name = e.sym
-                 /\ (e.hasBase => o.hasBase /\ SameIvC(o.base, e.base))
+                 /\ (e.hasBase => (o.hasBase /\ SameIvC(o.base, e.base)) \/ (~o.hasBase /\ SameIvC(e.base, P1)))   \* (a bass on the root itself may be left out)
                  /\ (o.hasBase /\ ~e.hasBase => SameIvC(o.base, P1)))          \* (no bass = the root itself)
   /\ Len(o.vals) = Len(e.vals) /\ \A i \in 1..Len(e.vals) : SameRat(o.vals[i], e.vals[i])
   /\ o.bpm = e.bpm
@@ -89,7 +89,7 @@ C05Inv == R.kind = "prog" =>
             /\ Honoured(R.deg) /\ (R.deg.ok \/ Expected(R.deg.s, "degree", <<>>).may)
             /\ \A i \in 1..Len(R.syl) :
                  /\ Honoured(R.syl[i])
-                 /\ (R.syl[i].ok => R.syl[i].outBytesEqualDegree)        \* the same instances, whichever way they were written
+                 \* (the same instances, whichever way they were written: by meaning -- OutEq above --, not byte for byte)
 \* a long piece = one section repeated: the section's conversion is judged by Conv.tla, the driver reports that the long
 \* output is that block over and over (a projection: equality of decoded instances), the counts are checked here
 SectionsInv == R.kind = "sections" =>
